@@ -482,7 +482,7 @@ static void pton_grammar(unsigned long count)
     char buf[128];
     for (ii = 0; ii < count; ++ii) {
         irc_inaddr net;
-        unsigned int kind = rnd() % 9, a = rnd() & 255, b = rnd() & 255, c = rnd() & 255, d = rnd() & 255, n, g, k;
+        unsigned int kind = rnd() % 10, a = rnd() & 255, b = rnd() & 255, c = rnd() & 255, d = rnd() & 255, n, g, k;
         memset(&net, 0, sizeof(net));
         switch (kind) {
         case 0: /* a.b.c.d/n */
@@ -548,6 +548,14 @@ static void pton_grammar(unsigned long count)
             check_expect(buf, 128, &net, 1);
             break;
         }
+        case 7: /* a.b/n, a.b.c/n: "missing trailing bits, as in 192.168/16" (iauth.h) - the octets given are the leading ones */
+            k = 2 + rnd() % 2;
+            n = rnd() % 33;
+            net.in6[5] = htons(65535); net.in6_8[12] = a; net.in6_8[13] = b;
+            if (k == 2) sprintf(buf, "%u.%u/%u", a, b, n);
+            else { sprintf(buf, "%u.%u.%u/%u", a, b, c, n); net.in6_8[14] = c; }
+            check_expect(buf, 96 + n, &net, 1);
+            break;
         case 6: /* plain dotted quad => 128 bits */
             sprintf(buf, "%u.%u.%u.%u", a, b, c, d);
             net.in6[5] = htons(65535); net.in6_8[12] = a; net.in6_8[13] = b; net.in6_8[14] = c; net.in6_8[15] = d;
